@@ -230,6 +230,17 @@ def guard_eq_zero(body, bb):
     out = []
     for sb, de, vals in cond_guards(body, bb):
         e = strip_refs(de)
+        dop = body.blocks[sb]["term"]["discr"]
+        dty = (dop.get("pl") or {}).get("ty") or dop.get("ty") or ""
+        if e.kind != "binop" and dty in ("usize", "u8", "u16", "u32", "u64", "u128", "isize", "i32", "i64"):
+            # `match n { 0 => .. }` / `if let (0, ..) = (n, ..)`: a switch on the integer itself
+            if vals == frozenset(["0"]):
+                out.append((sb, e, "eq0"))
+            elif "0" not in vals:
+                out.append((sb, e, "Ne:true"))
+            continue
+        if e.kind == "binop" and e[1] in ("Lt", "Ge") and is_const(e[3], 1):
+            e = E(("binop", "Eq" if e[1] == "Lt" else "Ne", e[2], E(("const", "0", "usize"))))
         if e.kind == "binop" and e[1] in ("Eq", "Ne", "Le", "Lt", "Ge", "Gt"):
             a, b = e[2], e[3]
             true_taken = "otherwise" in vals and "0" not in vals
@@ -372,7 +383,7 @@ def degree_vectors(ctx):
             inc_ok = v.kind == "binop" and v[1] == "Add" and (is_const(v[3], 1) or is_const(v[2], 1))
             # the increment sits in a closure run for EVERY edge: for_each over children/parents of EVERY node
             if kind in ("in", "out"):
-                okw, whyw = full_edge_walk(ctx, b)
+                okw, whyw = full_edge_walk(ctx, b, st["bb"])
                 if not okw:
                     kind = "?"
                     why = whyw
@@ -382,6 +393,41 @@ def degree_vectors(ctx):
                 k2 = kind if inc_ok else "?"
                 kinds[key] = k2 if prev in (None, k2) else "?"
                 details.setdefault(key, []).append((b, st, why, fmt_expr(v, b)))
+    # gather form: vec[i] = number of parents / children of node i, for all nodes in index order
+    for b in fb.prod_bodies():
+        for bb, t in b.calls():
+            if callee_path(t) != "std::iter::Iterator::collect" or not t["dest"]["ty"].startswith("std::vec::Vec<usize"):
+                continue
+            chain = iterator_chain(ctx, b, expr_operand(b, t["args"][0]))
+            names = [c[0] for c in chain]
+            if not names or names[0] != "std::iter::Iterator::map":
+                continue
+            if not any(n in ALL_NODE_SOURCES or n.endswith("::node_indices") for n in names[1:]) and \
+                    not any(c[0] == "leaf:agg" for c in chain[1:]):
+                continue
+            if [n for n in names[1:] if n in SELECTIVE_ITER or n in MORE_ITER]:
+                continue
+            fcl = closure_of_arg(ctx, chain[0][1], chain[0][2][2][1])
+            re_ = return_expr(fcl) if fcl is not None else None
+            if re_ is None:
+                continue
+            r = strip_refs(re_)
+            if not (r.kind == "call" and r[1].endswith("::count")):
+                continue
+            wchain = iterator_chain(ctx, fcl, r[2][0])
+            wn = [c[0] for c in wchain]
+            if [n for n in wn if n in SELECTIVE_ITER]:
+                kinds[(b.id, bb)] = "?"
+                continue
+            walk = [c for c in wchain if c[0] in (CHILDREN, PARENTS)]
+            if len(walk) != 1:
+                continue
+            idv = strip_refs(walk[0][2][2][1])
+            first_param = 2 if fcl.kind == "closure" else 1
+            of_item = idv.kind == "arg" and idv[1] == first_param
+            kind = ("in" if walk[0][0] == PARENTS else "out") if of_item else "?"
+            kinds[(b.id, bb)] = kind
+            details.setdefault((b.id, bb), []).append((b, None, "gather %s" % walk[0][0].split("::")[-1], fmt_expr(r, fcl)))
     return kinds, details
 
 
@@ -412,10 +458,45 @@ def full_raw_edge_walk(ctx, body, bb):
     return False, "degree increment is not in an unfiltered loop over raw_edges()"
 
 
-def full_edge_walk(ctx, body):
+def full_edge_walk(ctx, body, bb=None):
     """`body` is a closure passed to Iterator::for_each over children(n)/parents(n)
-    (no narrowing adaptor), itself inside a fold/for_each over all nodes."""
+    (no narrowing adaptor), itself inside a fold/for_each over all nodes -- or the
+    same as two nested loops."""
     fl = ctx.model.flow
+    lr_in = loop_region(ctx, body, bb) if bb is not None else None
+    if lr_in is not None:
+        # inner loop: every child/parent of a node; outer loop (or enclosing closure): every node
+        if lr_in["early_exits"]:
+            return False, "edge loop can be left early"
+        if [g for g in cond_guards(body, bb) if g[0] in lr_in["blocks"] and g[0] != lr_in.get("switch_bb")]:
+            return False, "degree increment is conditional inside the edge loop"
+        ichain = iterator_chain(ctx, body, lr_in["iter_expr"]) if lr_in.get("iter_expr") is not None else []
+        inames = [c[0] for c in ichain if not c[0].startswith("inline:")]
+        if [x for x in inames if x in SELECTIVE_ITER] or not any(x in (CHILDREN, PARENTS) for x in inames):
+            return False, "edge loop is narrowed / not over children|parents: %s" % inames
+        lr_out = loop_region(ctx, body, bb, skip_headers=(lr_in["header"],))
+        if lr_out is not None:
+            if lr_out["early_exits"]:
+                return False, "node loop can be left early"
+            if [g for g in cond_guards(body, lr_in["next_bb"]) if g[0] in lr_out["blocks"] and g[0] not in (lr_out.get("switch_bb"), lr_in.get("switch_bb"))]:
+                return False, "edge loop is conditional inside the node loop"
+            ochain = iterator_chain(ctx, body, lr_out["iter_expr"]) if lr_out.get("iter_expr") is not None else []
+            onames = [c[0] for c in ochain]
+            if [x for x in onames if x in SELECTIVE_ITER] or not any(x in ALL_NODE_SOURCES or x.endswith("::node_indices") for x in onames):
+                return False, "node loop does not range over all nodes: %s" % onames
+            return True, ""
+        if body.kind != "closure":
+            return False, "edge loop is not inside a walk over all nodes"
+        pb, ubb = body, None
+        ou = fl.closure_uses(pb)
+        if len(ou) != 1 or callee_path(ou[0][2]) not in ("std::iter::Iterator::fold", "std::iter::Iterator::for_each"):
+            return False, "node walk is not a fold/for_each over all nodes"
+        qb, qbb, qt, qai = ou[0]
+        ochain = iterator_chain(ctx, qb, expr_operand(qb, qt["args"][0]))
+        onames = [c[0] for c in ochain]
+        if [x for x in onames if x in SELECTIVE_ITER] or not any(x in ALL_NODE_SOURCES or x.endswith("::node_indices") for x in onames):
+            return False, "node walk does not range over all nodes: %s" % onames
+        return True, ""
     if body.kind != "closure":
         return False, "degree increment is not inside a per-edge closure"
     uses = fl.closure_uses(body)
@@ -792,44 +873,39 @@ def S1_opts(ctx, rule):
     except (KeyError, IndexError):
         ctx.unverifiable(rule, "opts-field", "-", "StreamOpts has no StreamOrder field")
         return
+    fl = ctx.model.flow
+    n_ctor = 0
     for b in fb.prod_bodies():
         sig = fb.fns.get(b.id)
         if not sig or not (sig.get("impl_self", "") or "").startswith("stream_opts::StreamOpts"):
             continue
         if not sig["output"]["s"].startswith("stream_opts::StreamOpts"):
             continue
-        # constants written to the order field of the returned value
+        # the StreamOrder constants that can end up in the order field of the returned value (through helpers / other constructors)
         vals = set()
-        temps = {}
-        for bb, si, s in b.stmts():
-            if s["k"] == "assign" and s["rv"]["k"] == "agg" and s["rv"].get("def") == "stream_order::StreamOrder":
-                tgt = s["pl"]
-                if strip_proj(tgt["p"])[:1] == (order_idx,):
-                    vals.add(s["rv"]["variant"])
-                elif not tgt["p"]:
-                    temps[tgt["l"]] = s["rv"]["variant"]
-        for bb, si, s in b.stmts():
-            if s["k"] != "assign":
+        other = []
+        for s_ in fl.sources_local(b, 0, (order_idx,)):
+            if s_.kind == "agg" and s_[4] == "stream_order::StreamOrder":
+                st = fb.bodies[s_[1]].blocks[s_[2]]["stmts"][s_[3]]
+                vals.add(st["rv"].get("variant"))
+            elif s_.kind == "param":
                 continue
-            rv = s["rv"]
-            if rv["k"] == "use" and rv["op"].get("pl", {}).get("l") in temps and not rv["op"]["pl"]["p"]:
-                if strip_proj(s["pl"]["p"])[:1] == (order_idx,):
-                    vals.add(temps[rv["op"]["pl"]["l"]])
-            if rv["k"] == "agg" and rv.get("def") == "stream_opts::StreamOpts":
-                o = rv["ops"][order_idx]
-                if o.get("pl", {}).get("l") in temps:
-                    vals.add(temps[o["pl"]["l"]])
+            else:
+                other.append(fmt_src(s_))
         name = sig["name"]
         where = ctx.model.where(b)
-        if sig.get("impl_trait") == "std::default::Default" or name == "default":
-            ctx.check(vals == {"Forward"}, rule, "opts-default", where,
-                      "StreamOpts::default() selects StreamOrder::Forward", "StreamOpts::default() stores %s" % sorted(vals))
-        elif vals:
-            # a builder method that sets the order: must be Reverse iff it is the
-            # only public order-setting method (rev)
-            ctx.check(vals == {"Reverse"}, rule, "opts-setter|%s" % name, where,
+        takes_self = bool(sig["inputs"]) and sig["inputs"][0]["s"].startswith("stream_opts::StreamOpts")
+        if not takes_self:
+            n_ctor += 1
+            ctx.check(vals == {"Forward"} and not other, rule, "opts-default" if (sig.get("impl_trait") == "std::default::Default" or name == "default") else "opts-ctor|%s" % name, where,
+                      "StreamOpts::%s() selects StreamOrder::Forward" % name, "StreamOpts::%s() stores %s %s" % (name, sorted(map(str, vals)), other[:2]))
+        elif vals or other:
+            # a builder method that sets the order: must be Reverse (rev)
+            ctx.check(vals == {"Reverse"} and not other, rule, "opts-setter|%s" % name, where,
                       "StreamOpts::%s() stores StreamOrder::Reverse" % name,
-                      "StreamOpts::%s() stores %s" % (name, sorted(vals)))
+                      "StreamOpts::%s() stores %s %s" % (name, sorted(map(str, vals)), other[:2]))
+    if n_ctor < 1:
+        ctx.unverifiable(rule, "opts-default", "-", "no StreamOpts constructor found")
 
 
 # ---------------------------------------------------------------------------
@@ -1089,6 +1165,25 @@ def check_preload_send(ctx, rule, b, bb, t, where, key):
                     why = "filter predicate is `%s`, not `COUNTS[id] == 0`" % fmt_expr(r, fcl)
     elif len(filters) > 1:
         why = "more than one filter between the node source and the preload"
+    else:
+        # no filter adaptor: an `if COUNTS[id] == 0` around the send in the loop / closure body
+        sent = strip_refs(expr_operand(b, t["args"][1]))
+        hits = []
+        for sb, x, rel in guard_eq_zero(b, bb):
+            er = elem_read(x) if not isinstance(x, str) else None
+            if er is None:
+                continue
+            keys, other = count_role(ctx, sources_of_expr(ctx, b, er[0]))
+            idv = node_index_arg(er[1])
+            if keys and not other and rel == "eq0" and idv is not None and same_value(ctx, b, idv, sent):
+                hits.append(sb)
+            elif keys:
+                why = "the guard on the predecessor count is `%s` / not of the id being sent" % rel
+        others = [sb for sb, de, vals in cond_guards(b, bb) if sb not in hits and not (lr is not None and lr.get("switch_bb") == sb)]
+        if hits and not others:
+            ok_filter = True
+        elif hits:
+            why = "the preload send has further guards besides `COUNTS[id] == 0`"
     ctx.check(ok_filter, rule, "preload|%s" % key, where,
               "preload sends exactly the ids with COUNTS[id] == 0 out of all nodes (%s) of the walked structure" % src[0].split("::")[-2],
               "preload is not `all nodes filtered by COUNTS[id] == 0`: %s" % why)
@@ -1896,7 +1991,19 @@ def W3(ctx, rule="W3"):
                 if roles != {"READY"} and not loop_ctl and not done_item and "READY" not in holder_roles(ctx, b, strip_refs(e[1])):
                     bad.append(fmt_expr(e, b))
             else:
-                bad.append(fmt_expr(e, b))
+                # `match count { 0 => .. }`: a switch on the count itself
+                er = elem_read(e)
+                okc = False
+                if er is not None:
+                    keys, other = count_role(ctx, sources_of_expr(ctx, b, er[0]))
+                    okc = bool(keys) and not other
+                if not okc:
+                    # a copy of the element read through a pointer obtained from index_mut
+                    srcs_ = sources_of_expr(ctx, b, e)
+                    keys, other = count_role(ctx, srcs_)
+                    okc = bool(keys) and not other
+                if not okc:
+                    bad.append(fmt_expr(e, b))
         ctx.check(not bad, rule, "release-unconditional|%s" % short(b.id), m.where(b, bb),
                   "the release of a successor depends only on its predecessor count and on the ready-sender being present",
                   "the release of a runnable successor is additionally guarded by %s" % bad)
